@@ -138,7 +138,7 @@ func parseCaretRange(version string) ([]*constraint, error) {
 			// ^0.0.3 means >=0.0.3 <0.0.4 (only patch changes)
 			return []*constraint{
 				{operator: ">=", version: v.normalize()},
-				{operator: "<", version: fmt.Sprintf("0.0.%d", v.patch+1)},
+				{operator: "<", version: fmt.Sprintf("0.0.%d-0", v.patch+1)},
 			}, nil
 		}
 		// ^0.2.3 means >=0.2.3 <0.3.0-0 (patch and minor changes, excludes prereleases from next minor)
